@@ -137,9 +137,16 @@ impl Runtime {
 
     pub fn push(&self, task: &Arc<Task>) {
         debug!("scheduler::push  task={:?}", task);
-        self.cache
-            .upsert(task)
-            .unwrap_or_else(|err| panic!("fail to upsert task({}): {}", task.id, err));
+        if let Err(err) = self.cache.upsert(task) {
+            // the process has ended and its rows have been removed while this task was still on
+            // its way (a step of another branch that was already queued): there is nothing left
+            // to run it for. A panic here would take the scheduler loop down for every process
+            if task.proc().state().is_completed() {
+                error!("scheduler::push task({}) of an ended process: {}", task.id, err);
+                return;
+            }
+            panic!("fail to upsert task({}): {}", task.id, err);
+        }
         self.scher.push(task);
     }
 
